@@ -283,8 +283,11 @@ structure Env where
   propsNil    : Bool             -- … is a nil slice
   connType    : ConnType         -- player.Type()
   vhostAddr   : Bytes            -- player.virtualHost.String()
-  hook1       : Option (Bytes → Bytes)               -- HandshakeAddresser (ServerInfo or RegisteredServer)
+  hook1       : Option (Bytes → Bytes)               -- HandshakeAddresser implemented by the registered ServerInfo
   hook2       : Option (Bytes → Except Unit Bytes)   -- Proxy's BackendHandshakeAddresser
+  /-- the ServerInfo was registered while Via routes the backend: `Proxy.Register` stores
+      `newViaServerInfo(info)`, a wrapper that embeds the ServerInfo INTERFACE (only `Name`/`Addr` are promoted) -/
+  viaWrapped  : Bool := false
 
 def undashed (id : Bytes) : Bytes := id.flatMap fun b => [hexLower (b.toNat / 16), hexLower (b.toNat % 16)]
 
@@ -315,9 +318,14 @@ def forwardingAddress (e : Env) (withToken : Bool) : Bytes :=
 def createLegacyForwardingAddress (e : Env) : Bytes := forwardingAddress e false
 def createBungeeGuardForwardingAddress (e : Env) : Bytes := forwardingAddress e true
 
+/-- the `HandshakeAddresser` that the type assertions `ServerInfo().(HandshakeAddresser)` /
+    `Server().(HandshakeAddresser)` in `handshakeAddr` find: the Via wrapper does not implement it (and the
+    concrete `*registeredServer` never does), so a wrapped server's own hook is invisible -/
+def Env.hook1Seen (e : Env) : Option (Bytes → Bytes) := if e.viaWrapped then none else e.hook1
+
 /-- `usedForwarding`: no `HandshakeAddresser` on the server and legacy / bungeeguard mode -/
 def usedForwarding (e : Env) : Bool :=
-  e.hook1.isNone && (decide (e.mode = .legacy) || decide (e.mode = .bungeeguard))
+  e.hook1Seen.isNone && (decide (e.mode = .legacy) || decide (e.mode = .bungeeguard))
 
 /-- `vHost` after the `switch s.config().Forwarding.Mode` -/
 def forwardedOrHost (e : Env) (vHost : Bytes) : Bytes :=
@@ -327,7 +335,7 @@ def forwardedOrHost (e : Env) (vHost : Bytes) : Bytes :=
 
 /-- … after `if ha != nil { vHost = ha.HandshakeAddr(vHost, player) }` (this is also `forgeTokenSource`) -/
 def afterHook1 (e : Env) (vHost : Bytes) : Bytes :=
-  match e.hook1 with
+  match e.hook1Seen with
   | some f => f (forwardedOrHost e vHost)
   | none => forwardedOrHost e vHost
 
